@@ -20,10 +20,11 @@ import (
 type partialMaskCase struct {
 	Native bool            `json:"native_walkgetattr"`
 	Reqs   []*refcodec.Msg `json:"reqs"`
+	Dirs   bool            `json:"dirs_too,omitempty"` // directories, the root included, come back without Mode as well (attaches are then refused)
 }
 
 func runPartialMaskCase(c partialMaskCase) *fail {
-	fs := memfs.New(memfs.Options{NativeWalkGetAttr: c.Native, PartialMask: true})
+	fs := memfs.New(memfs.Options{NativeWalkGetAttr: c.Native, PartialMask: true, PartialMaskDirs: c.Dirs})
 	memtree.Populate(fs.Tree)
 	s := peers.Start(p9.NewServer(fs))
 	if _, err := s.Version(64<<10, "9P2000.L.Google.7"); err != nil {
